@@ -4,7 +4,7 @@
 -/
 import HL.Lemmas.Init
 namespace HL.Lemmas.View
-open HL.Index HL.Workspace HL.Lemmas.AList HL.Lemmas.Reach HL.Lemmas.Edges HL.Lemmas.Index
+open HL.Index HL.Workspace HL.Lemmas.AList HL.Lemmas.ReachIdx HL.Lemmas.Edges HL.Lemmas.Index
 open HL.Lemmas.Counter HL.Lemmas.WsInv HL.Lemmas.Update HL.Spec.Rebuild
 
 /-! ### members -/
